@@ -55,6 +55,14 @@ fn main() {
             match r { Ok(s) => { println!("OK {}", s); println!("SEARCH tried=1 found=0"); }
                       Err(s) => { println!("WITNESS card-check {} :: {}", args[2], s); println!("SEARCH tried=1 found=1"); std::process::exit(1); } }
         }
+        Some("c12") => {
+            // replay c12 <combo:weight,...>
+            let entries: Vec<(CardPair, f32)> = args[2].split(',').filter(|t| !t.is_empty()).map(|t| { let (p, w) = t.split_once(':').unwrap(); (p.parse().unwrap(), w.parse().unwrap()) }).collect();
+            match search::check_c12(&entries) { Ok(s) => println!("OK {}", s), Err(s) => { println!("MISMATCH {}", s); std::process::exit(1); } }
+        }
+        Some("c12-search") => {
+            std::process::exit(search::c12_search(args[2].parse().unwrap(), args[3].parse().unwrap()));
+        }
         Some("iter") => {
             // replay iter <c02|c04|c08> <flop> <full|scopes> <ranges...>
             let case = search::IterCase::parse(&args[3..]);
